@@ -57,11 +57,13 @@ type PaymentService struct {
 }
 
 func (p *PaymentService) verify(sig string, method string, wallet string, nonce int64, args ...interface{}) error {
-	if err := p.NonceStore.CheckAndSaveNonce(wallet, nonce); err != nil {
+	if err := request.Verify(sig, method, wallet, nonce, args...); err != nil {
 		return pool.VerifyFailedError{Cause: err, Method: method}
 	}
 
-	if err := request.Verify(sig, method, wallet, nonce, args...); err != nil {
+	// Save the nonce only after the signature passed, otherwise anybody could
+	// use up a wallet's nonces with unsigned requests.
+	if err := p.NonceStore.CheckAndSaveNonce(wallet, nonce); err != nil {
 		return pool.VerifyFailedError{Cause: err, Method: method}
 	}
 	return nil
